@@ -22,10 +22,17 @@ type Case struct {
 	Updates [][]pbt.F `json:"updates"` // one updater thread per gauge
 	Passes  []int     `json:"passes"`  // passes per reporter thread
 	Sched   []int     `json:"sched"`
+	// Filler: that many further gauges f0.. are created in the same scope AFTER the judged ones and
+	// updated once before the threads start (a scope's metric tables grow; handles handed out
+	// earlier must stay the ones the report pass looks at)
+	Filler int `json:"filler,omitempty"`
 }
 
 func gen(t *rapid.T) Case {
 	c := Case{Cached: rapid.Bool().Draw(t, "cached")}
+	if rapid.IntRange(0, 7).Draw(t, "filler?") == 0 {
+		c.Filler = rapid.IntRange(14, 70).Draw(t, "filler")
+	}
 	ng := rapid.IntRange(1, 2).Draw(t, "ngauges")
 	for i := 0; i < ng; i++ {
 		n := rapid.IntRange(1, 6).Draw(t, "nupdates")
@@ -63,7 +70,11 @@ func run(c Case) (pbt.Outcome, error) {
 	for i := range c.Updates {
 		gauges[i] = root.Gauge(fmt.Sprintf("g%d", i))
 	}
+	for i := 0; i < c.Filler; i++ {
+		root.Gauge(fmt.Sprintf("f%d", i)).Update(0.5)
+	}
 	s := sched.New(c.Sched)
+	s.MaxSteps += 1000 * c.Filler // every filler gauge adds hook visits to every pass
 	log.OnCall = s.Yield
 	tally.VerifSetHooks(&tally.VerifHooks{Yield: s.Yield, Lock: s.Lock})
 	defer tally.VerifSetHooks(nil)
@@ -193,6 +204,23 @@ func run(c Case) (pbt.Outcome, error) {
 		if last == nil || math.Float64bits(last.F) != want {
 			errs.Addf("%s: at the end of the history the reporter's most recent value is %v, last update was %v (bits %016x)", name, describe(last), vs[len(vs)-1], want)
 		}
+	}
+	fillerSeen := map[string]int{}
+	for _, e := range events {
+		if e.Kind == rec.KGauge && strings.HasPrefix(e.Name, "f") {
+			fillerSeen[e.Name]++
+			if e.F != 0.5 {
+				errs.Addf("filler gauge %s delivered %v, was updated to 0.5", e.Name, e.F)
+			}
+		}
+	}
+	for i := 0; i < c.Filler; i++ {
+		if n := fillerSeen[fmt.Sprintf("f%d", i)]; n != 1 {
+			errs.Addf("filler gauge f%d (updated once) was delivered %d times", i, n)
+		}
+	}
+	if c.Filler > 0 {
+		out.Classes = append(out.Classes, "many-gauges-in-one-scope")
 	}
 	pre := sched.CountPreempted(res.Trace, "gauge.report:swapped", "gauge.Update:stored-value", "rep:gauge")
 	out.NonTrivial = pre > 0
